@@ -230,21 +230,43 @@ def run_case(job):
     if params != wantb:
         return 'bound values %r, expected %r in placeholder order (sql %r)' % (params, wantb, sql), None
     # one / one_or_none
+    def first(r):
+        return r[0] if isinstance(r, tuple) else 'not a record: %r' % (r,)
     try:
         r1 = m.one_or_none(conn, *args, **kw)
-        o1 = 'none' if r1 is None else r1[0]
+        o1 = 'none' if r1 is None else first(r1)
     except ValueError:
         o1 = 'ValueError'
     w1 = 'none' if not want else (want[0] if len(want) == 1 else 'ValueError')
     if o1 != w1:
         return 'one_or_none gives %r, expected %r' % (o1, w1), None
     try:
-        o2 = m.one(conn, *args, **kw)[0]
+        o2 = first(m.one(conn, *args, **kw))
     except ValueError:
         o2 = 'ValueError'
     w2 = want[0] if len(want) == 1 else 'ValueError'
     if o2 != w2:
         return 'one gives %r, expected %r' % (o2, w2), None
+    # the same method object once more WITHOUT per-call options: records, in the order the method was declared with
+    try:
+        again = list(m.all(conn, *args, **kwargs))
+    except Exception as e:
+        return 'a later call without options raised %s: %s' % (type(e).__name__, str(e)[:80]), None
+    if [first(r) for r in again] != sorted(want):
+        return ('after calls with per-call options (_order_by=%r, _as_scalars) a call without options gives %r, expected the records %s in '
+                'the declared order' % (kw.get('_order_by'), again[:6], sorted(want))), None
+    # scalars that are falsy (0, '') are values, not "no row"
+    if len(want) == 1:
+        val = [_val(r['a']) for r in table if r['id'] == want[0]][0]
+        if val is not None:
+            m2 = SqlMethod('SELECT _a, id FROM tu' if under else 'SELECT a, id FROM t', order_by='id')
+            for how in ('one', 'one_or_none'):
+                try:
+                    got1 = getattr(m2, how)(conn, *args, _as_scalars=True, **kwargs)
+                except Exception as e:
+                    got1 = '%s: %s' % (type(e).__name__, e)
+                if got1 != val or type(got1) is not type(val):
+                    return '%s(_as_scalars=True) over the single selected row gives %r, the value of its first column is %r' % (how, got1, val), None
     return None, (json.dumps([_shape(c) for c in case['conds']] + [case['desc'], variant % 60, style, under]), sql)
 
 
